@@ -3,7 +3,7 @@
    (it is false of the faithful model in the deviation classes listed as known findings, and beyond
    those it is carried by the correspondence and the Spec oracle); what is proved for all charts,
    configurations, events and datamodel states are the invariants below. *)
-From V Require Import Base NameMatch Chart Exec Large LargeLemmas.
+From V Require Import Base NameMatch Chart Exec Large LargeLemmas Interp LargeCache LargeCacheLemmas.
 
 (* the transition set selected in one microstep is conflict-free: no two selected transitions have
    overlapping exit sets (Appendix D: removeConflictingTransitions) *)
@@ -22,3 +22,47 @@ Theorem finished_is_absorbing :
   forall v xv c l x, l_fin l = true -> large_step v xv c l x = (l, x, RC_FINISHED).
 Proof. exact large_step_finished_absorbing. Qed.
 Print Assumptions finished_is_absorbing.
+
+(* LargeMicroStep does not compare a candidate with every selected transition: it consults lazily
+   filled per-transition sets `compatible`/`conflicting` that survive across steps and two bit arrays
+   per selection (LargeCache.v models them as the code has them).  For every document, every event
+   history and every number of steps the engine with these caches produces the trace, the engine
+   state and the datamodel state of the engine without them (Large.v, the model the correspondence
+   and the other theorems are about), and the caches only ever hold what `conflicts` computes. *)
+Theorem conflict_caches_are_transparent :
+  forall lv xv late t fuel evs,
+    let c := flatten late t in
+    let r := run_loop c cstate (large_step_c lv xv c) (fun s => l_cfg (fst s)) fuel (l_pristine, tc_empty) x_init evs in
+    (fst (fst r), snd r) = run_loop c lstate (large_step lv xv c) l_cfg fuel l_pristine x_init evs /\ cache_sound lv c (snd (fst r)).
+Proof.
+  intros lv xv late t fuel evs. apply run_cached_eq;
+    [apply flatten_tdisj | exact I | apply cache_sound_empty].
+Qed.
+Print Assumptions conflict_caches_are_transparent.
+
+(* the same for one step from any engine state with an ascending configuration and any sound cache content *)
+Theorem cached_step_is_direct_step :
+  forall lv xv late t l k x,
+    let c := flatten late t in
+    ssorted (l_cfg l) -> cache_sound lv c k ->
+    let r := large_step_c lv xv c (l, k) x in
+    (fst (fst (fst r)), snd (fst r), snd r) = large_step lv xv c l x /\ cache_sound lv c (snd (fst (fst r))).
+Proof. intros lv xv late t l k x c Hs Hk. apply large_step_c_eq; [apply flatten_tdisj | exact Hs | exact Hk]. Qed.
+Print Assumptions cached_step_is_direct_step.
+
+(* the cache is not idle in this statement: on the region chart with three transitions the second event
+   finds entries written while the first was processed *)
+Theorem caches_get_filled :
+  exists t evs fuel,
+    let c := flatten false t in
+    tc_compat (snd (fst (run_loop c cstate (large_step_c lg_fixed ex_fixed c) (fun s => l_cfg (fst s)) fuel
+                                  (l_pristine, tc_empty) x_init evs))) <> [].
+Proof.
+  exists (TNode KScxml 0 None [] [] [] []
+            [TNode KParallel 1 None [] [] [] []
+               [TNode KState 3 None [{| tt_vid := 101; tt_event := Some [101%N]; tt_cond := None; tt_targets := None; tt_internal := false; tt_body := [] |}] [] [] [] [];
+                TNode KState 4 None [{| tt_vid := 102; tt_event := Some [101%N]; tt_cond := None; tt_targets := Some [4%N]; tt_internal := false; tt_body := [] |}] [] [] [] []]]),
+         [[101%N]], 12%nat.
+  vm_compute. discriminate.
+Qed.
+Print Assumptions caches_get_filled.
